@@ -822,6 +822,7 @@ where
                     assert!(b.addr == base + k.off, "[C03/borrow.addr] borrowed part points at the offset where the block was written");
                     assert!(b.addr + b.bytes <= base + n, "[C03/borrow.inside] borrowed part covers only bytes of the buffer");
                 }
+                assert!(b.addr != 0, "[C03/borrow.nonnull] a borrowed part is a valid (non-null) reference even when it covers no bytes");
                 assert!(b.bytes == k.len, "[C03/borrow.len] borrowed part has the written length");
                 assert!(b.addr % b.align == 0, "[C03/borrow.aligned] borrowed part is aligned for its element type");
             }
